@@ -62,6 +62,15 @@ int sqfs_meta_reader_read(sqfs_meta_reader_t *m, void *d, size_t n)
 	for (size_t i = 0; i < 48; ++i)
 		if (i < n) ((unsigned char *)d)[i] = fifo[fifo_r + i];
 	VP_ASSERT(n <= 48, "read size within the harness copy loop");
+#ifdef ITYPE
+	if (fifo_r == 0 && n == sizeof(sqfs_inode_t)) {
+		/* the type word the reader dispatches on: PROVED to be the written type,
+		   then stored as a typed constant so that symbolic execution does not
+		   walk into the readers of all other inode types (engine lesson 0A.6) */
+		VP_ASSERT(fifo[0] == (ITYPE & 0xFF) && fifo[1] == (ITYPE >> 8), "C01: the inode type word is written first, little endian");
+		((sqfs_inode_t *)d)->type = ITYPE;
+	}
+#endif
 	fifo_r += n;
 	return 0;
 }
